@@ -4,6 +4,7 @@ import (
 	"fmt"
 	"go/constant"
 	"os"
+	"path/filepath"
 	"go/types"
 	"sort"
 	"strings"
@@ -77,6 +78,7 @@ type Shared struct {
 	stop      bool
 	pathCount int
 	constCache map[string][]string
+	byteConsts map[string][]byte
 }
 
 // Sample is a concrete witness of a completed path (for evidence and for
@@ -159,6 +161,7 @@ type Engine struct {
 	depthIsFinding bool
 	domHits int
 	bufs    map[*Value][]bufSeg
+	sbufs   map[*Value]StrVal
 	inInit  bool
 	expectPanic string
 
@@ -425,6 +428,7 @@ func (e *Engine) resetPath(prefix []bool) {
 	e.parseResult = nil
 	e.depthIsFinding = false
 	e.bufs = map[*Value][]bufSeg{}
+	e.sbufs = map[*Value]StrVal{}
 	e.expectPanic = ""
 	e.atomSeq = 0
 }
@@ -756,6 +760,7 @@ func (sh *Shared) strConsts(names string) []string {
 		want[strings.TrimSpace(n)] = true
 	}
 	seen := map[string]bool{}
+	bytesSeen := map[byte]bool{}
 	var scan func(f *ssa.Function)
 	scan = func(f *ssa.Function) {
 		for _, b := range f.Blocks {
@@ -765,6 +770,13 @@ func (sh *Shared) strConsts(names string) []string {
 						v := constant.StringVal(c.Value)
 						if len(v) >= 1 && len(v) <= 40 {
 							seen[v] = true
+						}
+					}
+					if c, ok := (*op).(*ssa.Const); ok && c.Value != nil && c.Value.Kind() == constant.Int {
+						if b, isB := c.Type().Underlying().(*types.Basic); isB && (b.Kind() == types.Uint8 || b.Kind() == types.Int32) {
+							if iv, exact := constant.Int64Val(c.Value); exact && iv >= 33 && iv <= 126 {
+								bytesSeen[byte(iv)] = true
+							}
 						}
 					}
 				}
@@ -778,9 +790,15 @@ func (sh *Shared) strConsts(names string) []string {
 		if f.Pkg != sh.pkg || f.Parent() != nil || strings.HasPrefix(f.Name(), "vp") {
 			continue
 		}
-		if want[f.Name()] {
+		if want[f.Name()] || (f.Pos().IsValid() && want["*"+filepath.Base(sh.prog.Fset.Position(f.Pos()).Filename)]) {
 			scan(f)
 		}
+	}
+	if sh.byteConsts == nil {
+		sh.byteConsts = map[string][]byte{}
+	}
+	for c := range bytesSeen {
+		sh.byteConsts[names] = append(sh.byteConsts[names], c)
 	}
 	var out []string
 	for v := range seen {
@@ -789,4 +807,33 @@ func (sh *Shared) strConsts(names string) []string {
 	sort.Strings(out)
 	sh.constCache[names] = out
 	return out
+}
+
+// constChars: character-class body of the printable bytes found in string
+// constants and small integer (byte/rune) constants of the named functions.
+func (sh *Shared) constChars(names string) string {
+	words := sh.strConsts(names)
+	seen := map[byte]bool{}
+	for _, w := range words {
+		for i := 0; i < len(w); i++ {
+			if w[i] >= 33 && w[i] <= 126 {
+				seen[w[i]] = true
+			}
+		}
+	}
+	sh.mu.Lock()
+	for _, c := range sh.byteConsts[names] {
+		seen[c] = true
+	}
+	sh.mu.Unlock()
+	var out []byte
+	for c := byte(33); c <= 126; c++ {
+		if seen[c] {
+			if strings.IndexByte(`\]^-[`, c) >= 0 {
+				out = append(out, '\\')
+			}
+			out = append(out, c)
+		}
+	}
+	return string(out)
 }
